@@ -115,6 +115,20 @@ class C17(Prop):
                     two = rng.sample(plain, 2)
                     for pm in itertools.permutations(filegrp + [v] + two):
                         lines.append(self.line(kind, pm))
+            if kind == "S":
+                # directed: the three directory flags with coinciding and differing values (every assignment of three directories to
+                # -d / -rd / -sd, in every order; and every pair of them without the third): a value shared by two flags changes nothing
+                good, _ = self.dirs()
+                ds = [good[0], good[1], good[5]]
+                names = [("dir", "-d"), ("rd", "-rd"), ("sd", "-sd")]
+                for vals in itertools.product(ds, repeat=3):
+                    grp = [(n[0], n[1], v) for n, v in zip(names, vals)]
+                    perms = list(itertools.permutations(grp))
+                    for pm in (perms if tier == "thorough" else rng.sample(perms, 2)):
+                        lines.append(self.line(kind, pm))
+                    for skip in range(3):
+                        two = [g for i, g in enumerate(grp) if i != skip]
+                        lines.append(self.line(kind, two if rng.random() < 0.5 else two[::-1]))
         return list(dict.fromkeys(lines))
 
     # --- the property statement, evaluated independently
